@@ -11,10 +11,10 @@ open ZygoVerif.Core ZygoVerif.VM
 
 /-- `Run` over a segment at the end of the current function that lands with a value -/
 theorem run_of_landsE {s s' : St} {pre code : List Instr} {v : Val} (h : Seg s pre code [])
-    (hr : ReachE code.length s s') (hl : Lands code.length v s s') :
+    (hr : ReachX s s') (hl : Lands code.length v s s') :
     ∃ N, ∀ fuel, N ≤ fuel → (run fuel).run s = (.ok v, s'.jmp s'.pc s.data) := by
-  obtain ⟨m, hr⟩ := hr
-  refine ⟨code.length + m + 2, fun fuel hf => ?_⟩
+  obtain ⟨K, m, hr⟩ := hr
+  refine ⟨K + m + 2, fun fuel hf => ?_⟩
   obtain ⟨f, rfl⟩ : ∃ f, fuel = f + 1 := ⟨fuel - 1, by omega⟩
   have hfin : (runLoop f (capOf s)).run s = (.ok (), s') :=
     hr.finish (Or.inr (by
@@ -33,34 +33,73 @@ theorem globals_initSt : Globals Ref.initSt := by
     | zero => omega
     | succ i => rfl
 
-theorem relC_initSt : RelC initSt Ref.initSt 0 :=
-  ⟨rel_initSt.toRelCore, FnChainOk.root 0 (by decide) rfl ⟨[], rfl⟩, globals_initSt⟩
+theorem clean_of_lookup {x : String} {v : Val} : ∀ (l : List (String × Val)), (∀ p ∈ l, Clean p.2) →
+    List.lookup x l = some v → Clean v
+  | [], _, h => by simp at h
+  | (k, w) :: l, hl, h => by
+    rw [List.lookup_cons] at h
+    split at h
+    · injection h with h; subst h; exact hl (k, w) List.mem_cons_self
+    · exact clean_of_lookup l (fun p hp => hl p (List.mem_cons_of_mem _ hp)) h
 
-/-- loading a text keeps the relation -/
-theorem RelC.loaded {s : St} {rs : Ref.St} (h : RelC s rs 0) (hs : AtRest s) (code : List Instr) :
-    RelC (loadState (clearTrace s) (clearTrace s) code) { rs with trace := [] } 0 := by
-  have hget : ∀ id, fnOf (loadState (clearTrace s) (clearTrace s) code) id
+theorem cleanSt_initSt : CleanSt Ref.initSt := by
+  refine ⟨fun i x v hv => ?_, fun r y hy => ?_⟩
+  · cases i with
+    | zero =>
+      refine clean_of_lookup _ (fun p hp => ?_) hv
+      simp only [Ref.initSt, List.getD_cons_zero, List.mem_append, List.mem_cons, List.mem_map, List.not_mem_nil,
+        or_false] at hp
+      rcases hp with (rfl | rfl) | ⟨n, _, rfl⟩ <;> trivial
+    | succ i => exact absurd hv (by show (List.lookup x ([] : List (String × Val))) ≠ some v; simp)
+  · exact absurd hy (by show y ∉ ([] : List Val); simp)
+
+theorem relC_initSt : RelC initSt Ref.initSt 0 :=
+  ⟨rel_initSt.toRelCore, FnChainOk.root 0 (by decide) rfl ⟨[], rfl⟩, globals_initSt, cleanSt_initSt⟩
+
+/-- the state after `LoadExpressions` when the generator also registered loop records -/
+def loaded (s : St) (gs' : GS) (code : List Instr) : St :=
+  loadState (clearTrace s) (withLoops (clearTrace s) gs') code
+
+theorem fnOf_loaded (s : St) (gs' : GS) (code : List Instr) (id : Nat) :
+    fnOf (loaded s gs' code) id
       = ((List.set s.fns mainFn { fnOf s mainFn with
           code := (fnOf s mainFn).code ++ (if (clearTrace s).pc ≥ curSize (clearTrace s) then [] else [.pop]) ++ code })[id]?).getD {} := by
+  show (List.set s.fns mainFn _).getD id {} = _
+  rw [List.getD_eq_getElem?_getD]; rfl
+
+theorem seg_loaded {s : St} (h : AtRest s) (gs' : GS) (code : List Instr) :
+    Seg (loaded s gs' code) (fnOf s mainFn).code code [] := by
+  have hsz : curSize (clearTrace s) = ((fnOf s mainFn).code.length : Int) := by
+    show (if (fnOf s s.curfunc).user then (0 : Int) else ((fnOf s s.curfunc).code.length : Int)) = _
+    rw [h.cur, h.user]; rfl
+  have hpre : (if (clearTrace s).pc ≥ curSize (clearTrace s) then ([] : List Instr) else [.pop]) = [] :=
+    if_pos (by rw [hsz]; show s.pc ≥ _; rw [h.pc]; exact Int.le_refl _)
+  have hf : fnOf (loaded s gs' code) (loaded s gs' code).curfunc
+      = { fnOf s mainFn with code := (fnOf s mainFn).code ++ code } := by
+    show fnOf (loaded s gs' code) mainFn = _
+    rw [fnOf_loaded, hpre]
+    simp only [List.getElem?_set_self h.main, Option.getD_some, List.append_nil]
+  exact ⟨by rw [hf]; exact h.user, by rw [hf]; simp, h.pc⟩
+
+/-- loading a text keeps the relation -/
+theorem relC_loaded {s : St} {rs : Ref.St} (h : RelC s rs 0) (hs : AtRest s) (gs' : GS) (code : List Instr) :
+    RelC (loaded s gs' code) { rs with trace := [] } 0 := by
+  have hpar : ∀ id, (fnOf (loaded s gs' code) id).parent = (fnOf s id).parent := by
     intro id
-    show (List.set s.fns mainFn _).getD id {} = _
-    rw [List.getD_eq_getElem?_getD]; rfl
-  have hpar : ∀ id, (fnOf (loadState (clearTrace s) (clearTrace s) code) id).parent = (fnOf s id).parent := by
-    intro id
-    rw [hget, List.getElem?_set]
+    rw [fnOf_loaded, List.getElem?_set]
     by_cases hid : mainFn = id
     · subst hid; simp only [hs.main, if_true, Option.getD_some]
     · simp only [hid, if_false]; rw [← List.getD_eq_getElem?_getD]; rfl
-  have hclo : ∀ id, (fnOf (loadState (clearTrace s) (clearTrace s) code) id).closing = (fnOf s id).closing := by
+  have hclo : ∀ id, (fnOf (loaded s gs' code) id).closing = (fnOf s id).closing := by
     intro id
-    rw [hget, List.getElem?_set]
+    rw [fnOf_loaded, List.getElem?_set]
     by_cases hid : mainFn = id
     · subst hid; simp only [hs.main, if_true, Option.getD_some]
     · simp only [hid, if_false]; rw [← List.getD_eq_getElem?_getD]; rfl
-  refine ⟨⟨h.len, h.vars, h.nofn, h.chain, h.heap, rfl⟩, ?_, h.globals⟩
-  have hcur : (loadState (clearTrace s) (clearTrace s) code).curfunc = s.curfunc := hs.cur.symm
+  refine ⟨⟨h.len, h.vars, h.nofn, h.chain, h.heap, rfl⟩, ?_, h.globals, h.clean⟩
+  have hcur : (loaded s gs' code).curfunc = s.curfunc := hs.cur.symm
   rw [hcur]
-  exact h.fnchain.congr (s := s) (s' := loadState (clearTrace s) (clearTrace s) code) rfl
+  exact h.fnchain.congr (s := s) (s' := loaded s gs' code) rfl
     (by show (List.set s.fns mainFn _).length = _; simp) hpar hclo
 
 /-- what `runText` must report for a reference result -/
@@ -78,33 +117,35 @@ reference evaluator, or class `err` with the reference trace — whichever the r
 theorem runText_Fc (s : St) (rs : Ref.St) (p : List Expr) (hne : p ≠ []) (hp : FcList p = true)
     (hs : AtRest s) (hrel : RelC s rs 0) (n : Nat) :
     ∃ N, ∀ fuel, N ≤ fuel → TextOut (runText fuel p s) (Ref.evalBegin n p 0 { rs with trace := [] }) := by
-  obtain ⟨code, t, hc, -⟩ := compileBegin_total_Fc p hne hp (isFnScope (clearTrace s)) {}
+  obtain ⟨code, t, gs', hc, -, hfns⟩ := compileBegin_total_Fc p hne hp (isFnScope (clearTrace s)) {}
     { fns := s.fns, loops := s.loops, loopstack := s.loopstack, live := s.linear } rfl
   have hload : (runGen (compileBegin (isFnScope (clearTrace s)) {} p)).run (clearTrace s)
-      = (.ok (code, t), clearTrace s) := run_runGen_ok _ (clearTrace s) _ hc
-  have hseg := hs.loaded code
-  have hrel' := hrel.loaded hs code
+      = (.ok (code, t), withLoops (clearTrace s) gs') := run_runGen_any _ (clearTrace s) _ gs' hc hfns.fns
+  have hseg := seg_loaded hs gs' code
+  have hrel' := relC_loaded hrel hs gs' code
   have hsim := segment_Fc_begin p hne hp _ {} rfl _ code t _ hc _ _ 0 _ [] hrel' hseg n
   cases hres : Ref.evalBegin n p 0 { rs with trace := [] } with
   | ok v rs' =>
     rw [hres] at hsim
-    obtain ⟨s1, r, l, rel1, -, -⟩ := hsim
+    obtain ⟨s1, r, l, rel1, -, -, -⟩ := hsim
     obtain ⟨N, hN⟩ := run_of_landsE hseg r l
     refine ⟨N, fun fuel hf => ?_⟩
-    refine ⟨s1.jmp s1.pc (loadState (clearTrace s) (clearTrace s) code).data,
-      depths (s1.jmp s1.pc (loadState (clearTrace s) (clearTrace s) code).data), ?_⟩
+    refine ⟨s1.jmp s1.pc (loaded s gs' code).data,
+      depths (s1.jmp s1.pc (loaded s gs' code).data), ?_⟩
+    have e : loadState (clearTrace s) (withLoops (clearTrace s) gs') code = loaded s gs' code := rfl
     rw [runText_eq]
-    simp only [hload, hN fuel hf]
-    rw [show (s1.jmp s1.pc (loadState (clearTrace s) (clearTrace s) code).data).heap = rs'.heap from rel1.heap,
-      show (s1.jmp s1.pc (loadState (clearTrace s) (clearTrace s) code).data).trace = rs'.trace from rel1.trace]
+    simp only [hload, e, hN fuel hf]
+    rw [show (s1.jmp s1.pc (loaded s gs' code).data).heap = rs'.heap from rel1.heap,
+      show (s1.jmp s1.pc (loaded s gs' code).data).trace = rs'.trace from rel1.trace]
   | err rs' =>
     rw [hres] at hsim
     obtain ⟨N, hN⟩ := run_of_failsE hsim
     refine ⟨N, fun fuel hf => ?_⟩
     obtain ⟨sf, hrun, htr⟩ := hN fuel hf
     refine ⟨sf, depths sf, ?_⟩
+    have e : loadState (clearTrace s) (withLoops (clearTrace s) gs') code = loaded s gs' code := rfl
     rw [runText_eq]
-    simp only [hload, hrun, htr]
+    simp only [hload, e, hrun, htr]
   | timeout => exact ⟨0, fun _ _ => trivial⟩
   | brk l rs' => rw [hres] at hsim; exact hsim.elim
   | cont l rs' => rw [hres] at hsim; exact hsim.elim
